@@ -923,3 +923,43 @@ def tr_incoming_encrypted(ctx):
     else:
         ctx.prove(len(bound) == 0 and len(ctx.glist('cb')) == 0, 'C14+C10:O14.11.unknown-peer-bound-to-no-node')
         ctx.prove(any(o == ('disconnect', 'incoming') for o in ctx.glist('conn_ops')), 'C14+C10:O14.11.unknown-peer-disconnected')
+
+
+@unit(name='transport.destroy', relpath=TRMOD, qual=['%s.destroy' % CLS, '%s.dropNode' % CLS], props=['C14'],
+      doc='O14.12: destroy() first removes every notification callback (so nothing is reported to a destroyed object, not even the '
+          'disconnects it causes itself), drops every member (no connection, address or node entry left, no reconnect attempted), unbinds '
+          'the server and disconnects every connection that has not named its peer yet',
+      assumptions=['no observers connected in this unit (observer drop is the else-branch of dropNode, unit transport.dropNode)'])
+def tr_destroy(ctx):
+    tr, conns, members = mk_transport(ctx)
+    unk = ctx.alloc(PObj('TcpConnection', {'state': CONNECTED, 'name': 'unknown0'}))
+    ctx.setcell(ctx.cell(tr).fields['_unknownConnections'], GSet([(True, unk, True)]))
+    srv_ops = []
+    server = ctx.alloc(PObj('TcpServer', {}))
+    ctx.setcell(tr, ctx.cell(tr).with_field('_server', server))
+    REG['TcpServer.unbind'] = lambda I, s, a, k: srv_ops.append('unbind')
+    extra = {'%s.dropNode' % CLS} | {'Transport.%s' % m for m in ('setOnMessageReceivedCallback', 'setOnNodeConnectedCallback', 'setOnNodeDisconnectedCallback',
+                                                                  'setOnReadonlyNodeConnectedCallback', 'setOnReadonlyNodeDisconnectedCallback')}
+    added = extra - INL
+    INL.update(added)
+    try:
+        outcome, r, I = run_tr(ctx, tr, 'destroy', [])
+    finally:
+        REG.pop('TcpServer.unbind', None)
+        INL.difference_update(added)
+    ctx.prove(outcome == 'ok', 'C14:O14.12.no-exception', info=outcome)
+    if outcome != 'ok':
+        return
+    f = ctx.cell(tr).fields
+    for n in ('_onMessageReceivedCallback', '_onNodeConnectedCallback', '_onNodeDisconnectedCallback', '_onReadonlyNodeConnectedCallback', '_onReadonlyNodeDisconnectedCallback'):
+        ctx.prove(f.get(n) is None, 'C14:O14.12.callbacks-removed', info=n)
+    ctx.prove(len(ctx.glist('cb')) == 0, 'C14:O14.12.nothing-reported-to-a-destroyed-object', info=repr(ctx.glist('cb')))
+    ctx.prove(Not(Or(*F_(ctx, tr, '_nodes').bits)), 'C14:O14.12.no-member-left')
+    ctx.prove(Not(Or(*[p for p, k, v in F_(ctx, tr, '_connections').entries])), 'C14:O14.12.no-connection-left')
+    ctx.prove(Not(Or(*[p for p, k, v in F_(ctx, tr, '_nodeAddrToNode').entries])), 'C14:O14.12.no-address-left')
+    ops = ctx.glist('conn_ops')
+    ctx.prove(not any(o[0] == 'connect' for o in ops), 'C14:O14.12.no-reconnect-attempted')
+    ctx.prove(srv_ops == ['unbind'], 'C14:O14.12.server-unbound-once', info=repr(srv_ops))
+    ctx.prove(any(o == ('disconnect', 'unknown0') for o in ops), 'C14:O14.12.unnamed-connections-disconnected')
+    u = F_(ctx, tr, '_unknownConnections')
+    ctx.prove(not [1 for e in getattr(u, 'entries', [1]) if e[0] is not False], 'C14:O14.12.no-unnamed-connection-left', info=repr(u))
